@@ -66,6 +66,7 @@ type Taint struct {
 	declass      map[string]bool // functions whose results are public by declaration
 	globalStores map[*ssa.Global]map[*ssa.Function]lbl
 	changed      bool
+	publicLoad   func(ld *ssa.UnOp) bool // loads whose value is public although the object they read from is secret
 }
 
 func isPtrLike(t types.Type) bool {
@@ -469,6 +470,11 @@ func (t *Taint) transfer(s *fnState, in ssa.Instruction, sinks *[]tSink, calls *
 		switch x.Op {
 		case token.MUL:
 			if !hasContent(x.Type()) {
+				if t.publicLoad != nil && t.publicLoad(x) {
+					// a configuration field of an object that also holds secrets (declared public by the check that runs the engine)
+					s.setVal(x, 0)
+					break
+				}
 				s.setVal(x, s.memOf(s.root(x.X)))
 			} else if !isPtrLike(x.Type()) {
 				// aggregate loaded by value (struct/array copy): its content is the container's content
@@ -797,6 +803,16 @@ func (t *Taint) call(s *fnState, in ssa.Instruction, c *ssa.CallCommon, sinks *[
 		return
 	}
 	l := joinAll()
+	if name == "(*math/big.Int).FillBytes" && len(args) == 2 {
+		// writes the big-endian value of the receiver into buf and returns buf: the old content of buf does not flow anywhere
+		rl := s.lab(args[0])
+		if rl != 0 {
+			*sinks = append(*sinks, tSink{kind: skExternal, instr: in, labels: rl, detail: "secret-dependent data passed to " + name + ", which is not on the constant-time allow-list"})
+		}
+		s.addMem(s.root(args[1]), rl)
+		setResult(rl, args[1])
+		return
+	}
 	switch {
 	case ctLeaf[name]:
 		// data-independent leaf: results depend on all operands, pointer-like destinations receive them
